@@ -151,7 +151,7 @@ def run(ck, m):
     def shape_cases(fn, label):
         rs = find_stmts("$$rw, $$rh = self.rendered_size", body_walk(fn))
         ck.need(len(rs) == 1, f"{label}: `<w>, <h> = self.rendered_size` not found")
-        rw, rh = norm(rs[0][1]["rw"]), norm(rs[0][1]["rh"])
+        rw, rh = "self.rendered_size[0]", "self.rendered_size[1]"     # what the two names expand to (tiv.sem.expand)
         out = []
         sums = emit.summaries(fn, env)
         ck.expect(len(sums) >= 2, f"{label}: expected >= 2 string-returning paths, found {len(sums)}")
